@@ -50,15 +50,17 @@ CHECKS = {
         assumptions=['panic values are compared by their canonical rendering', 'debug.Stack() content of try.panicError is not modelled'],
     ),
     'C06': dict(
-        spec=['FpVerif.Spec.C06'],
+        spec=['FpVerif.Spec.C06', 'FpVerif.Spec.C06Sound'],
         harnesses=[H('future', 'oracle_future', 3000, 150000, spec_level=True)],
         level='proof',
         level_note='trusted: Lean kernel (propext/Classical.choice/Quot.sound only); model fidelity checked by correspondence (statuses of every future, '
                    'callback log and pool size compared after EVERY scenario under the same schedule, i.e. the task structure itself is compared). '
                    'PARTIAL: proved at task granularity (one ExecuteUnsafe-d runnable = one atomic step; the reduction from atomic-step granularity is C05); '
                    'proved: single assignment and exactly-once task delivery under every event sequence, monotone three-valued Try semantics of every '
-                   'derived combinator; the global invariant linking the operational network to that semantics for every schedule is in progress '
-                   '(Spec/C06Sound.lean) — until then schedule-independence of the VALUES is established by the direct three-valued evaluation in the harness.',
+                   'derived combinator; Spec/C06Sound.lean: for EVERY schedule (construction moments, source completion order, task order) every completed '
+                   'promise holds exactly what its first-order expression evaluates to over the statuses in that same state (never earlier, never different). '
+                   'Not yet proved: completeness at quiescence (a determined future IS completed once no task is runnable) and absence of failed Complete attempts; '
+                   'futures of futures (Flatten/LiftM) are outside the first-order fragment of the theorem — all three are covered by the correspondence and direct checks.',
         modelled='future.go (Promise cell, OnComplete, Future methods Map/FlatMap/Recover*/Or/OrFuture/Failed), future/future_op.go (Successful, Failed, '
                  'Apply/Apply2, FlatMap, Map, Map2, Zip, Zip3/LiftA3, LiftM via Flatten(Map), Compose, Method1, FlapMap, Transform, TransformWith, Sequence, '
                  'Traverse/TraverseSeq via iterator.FoldFuture). Not modelled: Await/timeouts, MonadChainN/ApplicativeFunctorN builders, inline executors.',
